@@ -144,7 +144,7 @@ mod imp {
     }
 
     fn viol(seed: u64, sc: &Scenario, class: String, detail: String) -> Violation {
-    let class = if sc.case.has_vardct && !class.starts_with("panic:") { format!("{class}+vardct") } else { class };
+    let class = sc.case.tag(class);
         Violation { property: "C08".into(), check: "c08".into(), class, detail, seed, scenario: serde_json::to_value(sc).unwrap() }
     }
 
